@@ -291,9 +291,23 @@ Definition lookup_prop (m : list (bytes * value)) (k : bytes) : sres :=
     | c :: r =>
       if (97 <=? c) && (c <=? 122) then
         match alookup ((c - 32) :: r) m with Some v => SVal v | None => SErr end
-      else SErr
+      else if c <? 128 then SErr
+      else SUnspec     (* a name that starts in the middle of a non-ASCII character: nothing is specified *)
     | [] => SErr
     end
+  end.
+
+(* the values of a list of expressions, left to right: the first one that is not a value decides *)
+Inductive lres (A : Type) := LVal (l : list A) | LErr | LUnspec.
+Arguments LVal {A} l.
+Arguments LErr {A}.
+Arguments LUnspec {A}.
+
+(* "literal".raw() : the one call whose meaning C10 fixes *)
+Definition raw_literal (r : sexpr) (fn : bytes) (args : list sexpr) : option bytes :=
+  match r, args with
+  | XStr lit _, [] => if bytes_eqb fn [114; 97; 119] then Some lit else None
+  | _, _ => None
   end.
 
 Section Sem.
@@ -304,17 +318,21 @@ Fixpoint sem (fuel : nat) (env : list (bytes * value)) (e : sexpr) {struct fuel}
   match fuel with
   | O => SErr
   | S f =>
-    let sems := fix go (xs : list sexpr) : option (list value) :=
+    let sems := fix go (xs : list sexpr) : lres value :=
       match xs with
-      | [] => Some []
+      | [] => LVal []
       | x :: xs' => match sem f env x with
-                    | SVal v => match go xs' with Some vs => Some (v :: vs) | None => None end
-                    | _ => None
+                    | SVal v => match go xs' with LVal vs => LVal (v :: vs) | LErr => LErr | LUnspec => LUnspec end
+                    | SErr => LErr
+                    | SUnspec => LUnspec
                     end
       end in
     match e with
     | XInt z => if (0 <=? z)%Z && (z <=? 9223372036854775807)%Z then SVal (VInt z) else SErr
-    | XFloat m k => SVal (VFloat (f_div (f_ofZ m) (f_ofZ (10 ^ Z.of_nat k))))
+    | XFloat m k =>
+      (* the correctly rounded binary64 of the decimal text: digits / 10^k in one rounding
+         (Floats.f_of_lit, the shared model of strconv.ParseFloat on the printable class) *)
+      match f_of_lit (float_text m k) with Some x => SVal (VFloat x) | None => SUnspec end
     | XStr s _ => SVal (VStr (esc_spec s))
     | XBool b => SVal (VBool b)
     | XNil => SVal VNil
@@ -344,7 +362,9 @@ Fixpoint sem (fuel : nat) (env : list (bytes * value)) (e : sexpr) {struct fuel}
       sbind (sem f env x) (fun v =>
         match v with
         | VInt z => SVal (VInt (wrap64 (z - 1)))
-        | VFloat x => SVal (VFloat (f_sub x f_one))
+        | VFloat x =>
+          (* the decrement of a float is specified where its decimal text is exact *)
+          match f_format x with Some _ => SVal (VFloat (f_sub x f_one)) | None => SUnspec end
         | _ => SErr
         end)
     | XBin o l r =>
@@ -363,28 +383,35 @@ Fixpoint sem (fuel : nat) (env : list (bytes * value)) (e : sexpr) {struct fuel}
     | XProp l n =>
       sbind (sem f env l) (fun a =>
         match a with VObj m => lookup_prop m n | _ => SErr end)
-    | XCall (XStr lit _) [114; 97; 119] [] => SVal (VStr lit)    (* "lit".raw() is the original text *)
     | XCall r fn args =>
+      match raw_literal r fn args with
+      | Some lit => SVal (VStr lit)                 (* "lit".raw() is the original text *)
+      | None =>
       sbind (sem f env r) (fun rv =>
         match sems args with
-        | Some avs => call_spec rv fn avs
-        | None => SErr
+        | LVal avs => call_spec rv fn avs
+        | LErr => SErr
+        | LUnspec => SUnspec
         end)
+      end
     | XArr els =>
-      match sems els with Some vs => SVal (VArr vs) | None => SErr end
+      match sems els with LVal vs => SVal (VArr vs) | LErr => SErr | LUnspec => SUnspec end
     | XObj pairs =>
-      match (fix go (xs : list (bytes * sexpr)) : option (list (bytes * value)) :=
+      (* a Go map: the entries are evaluated and stored in key order *)
+      match (fix go (xs : list (bytes * sexpr)) : lres (bytes * value) :=
                match xs with
-               | [] => Some []
+               | [] => LVal []
                | (k, x) :: xs' =>
                  match sem f env x with
-                 | SVal v => match go xs' with Some vs => Some ((k, v) :: vs) | None => None end
-                 | _ => None
+                 | SVal v => match go xs' with LVal vs => LVal ((k, v) :: vs) | LErr => LErr | LUnspec => LUnspec end
+                 | SErr => LErr
+                 | SUnspec => LUnspec
                  end
-               end) pairs with
-      | Some kvs => SVal (VObj (fold_left (fun (acc : list (bytes * value)) kv =>
+               end) (asort pairs) with
+      | LVal kvs => SVal (VObj (fold_left (fun (acc : list (bytes * value)) kv =>
                                              aset (fst kv) (snd kv) acc) kvs []))
-      | None => SErr
+      | LErr => SErr
+      | LUnspec => SUnspec
       end
     end
   end.
